@@ -107,6 +107,11 @@ T_Captured ==            \* snap.tmp_written / rw.captured: the capture (silent)
   /\ Consume
   /\ UNCHANGED vars
 
+\* the KV capture of a compaction is logged (hook in DB.IterateKV, under the KV lock): it is the capture step of
+\* the specification and must come after Begin (a capture taken before BeginSnapshotMode misses writes that go to
+\* the old log afterwards)
+T_CaptureKV == IsEv("capture.kv") /\ Consume /\ A_Capture("rw")
+
 T_Renamed == IsEv("snap.renamed") /\ Consume /\ S_Rename
 
 T_CmdTruncate ==
@@ -168,13 +173,13 @@ Silent ==
   /\ \/ \E c \in Clients : C_Enqueue(c) \/ C_Apply(c)
      \/ S_TickFlush \/ W_Dead
      \/ (wclosed /\ (S_Truncate \/ R_Replace \/ A_End("snap") \/ A_End("rw") \/ A_Fail))   \* command refused after Close: no cmd event
-     \/ A_Capture("snap") \/ A_Capture("rw")
+     \/ A_Capture("snap")
 
 TraceInit == Init /\ l = 1 /\ ackseen = Zero /\ ackclose = Zero
 TraceNext ==
   \/ T_Ack \/ T_CloseStart
   \/ (Keep /\ (\/ T_Journaling \/ T_Journaled
-               \/ T_CmdFlush \/ T_CmdNoop \/ T_CmdBegin \/ T_PhaseBegin \/ T_Captured \/ T_Renamed
+               \/ T_CmdFlush \/ T_CmdNoop \/ T_CmdBegin \/ T_PhaseBegin \/ T_Captured \/ T_CaptureKV \/ T_Renamed
                \/ T_CmdTruncate \/ T_CmdReplace \/ T_PhaseInfo \/ T_CmdEndReappend \/ T_CmdClose \/ T_Recovered
                \/ Silent))
 TraceSpec == TraceInit /\ [][TraceNext]_tvars
